@@ -1021,6 +1021,32 @@ impl<'a> CompilerState<'a> {
     }
 
     fn parse_calc(&self, pairs: Pairs<'a, Rule>) -> Result<i32, Error> {
+        self.parse_calc_ternary(&pairs.collect::<Vec<_>>())
+    }
+
+    // cond ? a : b, where a and b may contain ?: themselves: the ':' that belongs to the
+    // first '?' is found by counting, which the flat operator table cannot do
+    fn parse_calc_ternary(&self, pairs: &[Pair<'a, Rule>]) -> Result<i32, Error> {
+        if let Some(q) = pairs.iter().position(|p| p.as_rule() == Rule::ternary_cond1) {
+            let mut depth = 0;
+            for (i, p) in pairs.iter().enumerate().skip(q + 1) {
+                match p.as_rule() {
+                    Rule::ternary_cond1 => depth += 1,
+                    Rule::ternary_cond2 if depth == 0 => {
+                        let cond = self.parse_calc_flat(pairs[..q].iter().cloned())?;
+                        let a = self.parse_calc_ternary(&pairs[q + 1..i])?;
+                        let b = self.parse_calc_ternary(&pairs[i + 1..])?;
+                        return Ok(if cond != 0 { a } else { b });
+                    }
+                    Rule::ternary_cond2 => depth -= 1,
+                    _ => (),
+                }
+            }
+        }
+        self.parse_calc_flat(pairs.iter().cloned())
+    }
+
+    fn parse_calc_flat(&self, pairs: impl Iterator<Item = Pair<'a, Rule>>) -> Result<i32, Error> {
         self.calculator
             .map_primary(|primary| -> Result<i32, Error> {
                 match primary.as_rule() {
